@@ -32,6 +32,7 @@ from edb.common import markup
 from edb.edgeql import parser as ql_parser
 
 from . import amsg
+from . import state
 
 
 # "created continuously" means the interval between two consecutive spawns
@@ -47,6 +48,16 @@ def worker(sockname, version_serial, get_handler):
                 methname, args = pickle.loads(req)
                 meth = get_handler(methname)
             except Exception as ex:
+                # The request has not reached the handler, so the state it
+                # may have carried was not applied. Tell the server, or it
+                # would record the worker as up to date (see
+                # BaseWorker.call() in pool.py).
+                try:
+                    raise state.FailedStateSync(
+                        f'failed to read the request: '
+                        f'{type(ex).__name__}({ex})') from ex
+                except state.FailedStateSync as sync_ex:
+                    ex = sync_ex
                 prepare_exception(ex)
                 if debug.flags.server:
                     markup.dump(ex)
